@@ -62,6 +62,11 @@ fn acts(full: bool, nb: usize) -> Vec<Act> {
     a.push(Act::Produce(vec![vec!["RPUSH", "k2", "$1"]]));
     a.push(Act::Produce(vec![vec!["LPOP", "k"]]));
     a.push(Act::Produce(vec![vec!["RPUSH", "k", "$1"], vec!["LPOP", "k"]]));
+    // both keys of a two-key call pushed in one write: two wake-ups for one client are queued before the first is handled
+    // (a seeded staleness guard let the second one pop its element for nobody); and two pushes + two pops in one write
+    // (two wake-ups that both find nothing: the waiters go back into the queue)
+    a.push(Act::Produce(vec![vec!["RPUSH", "k", "$1"], vec!["RPUSH", "k2", "$2"]]));
+    a.push(Act::Produce(vec![vec!["RPUSH", "k", "$1"], vec!["RPUSH", "k", "$2"], vec!["LPOP", "k"], vec!["LPOP", "k"]]));
     a.push(Act::Produce(vec![vec!["MULTI"], vec!["RPUSH", "k", "$1"], vec!["EXEC"]]));
     a.push(Act::Produce(vec![vec!["EVAL", "return redis.call('RPUSH', KEYS[1], ARGV[1])", "1", "k", "$1"]]));
     a.push(Act::Produce(vec![vec!["MULTI"], vec!["BLPOP", "k", "0"], vec!["EXEC"]]));
